@@ -31,6 +31,23 @@ mixed do_op (string s, mixed hookarg) {
     a->x_mv (d);
     VL ("r mv " + w[1] + " " + w[2] + " ok");
     break;
+  case "mvs":
+    a = master()->get (w[1]);
+    if (!a) { VL ("r mvs " + w[1] + " c08/" + w[2] + " !gone"); break; }
+    VL ("mvsb " + w[1] + " c08/" + w[2]);
+    ob = a->x_mvs ("/c08/" + w[2]);
+    VL ("r mvs " + w[1] + " c08/" + w[2] + " ok " + ROID (ob));
+    break;
+  case "pr":
+    a = master()->get (w[1]);
+    if (!a) { VL ("r pr " + w[1] + " " + w[2] + " !gone"); break; }
+    ob = present (w[2], a);
+    VL ("r pr " + w[1] + " " + w[2] + " " + ROID (ob));
+    break;
+  case "fis":
+    ob = first_inventory ("/c08/" + w[1]);
+    VL ("r fis c08/" + w[1] + " " + ROID (ob));
+    break;
   case "de":
     a = master()->get (w[1]);
     if (!a) { VL ("r de " + w[1] + " !gone"); break; }
